@@ -43,6 +43,7 @@ type Op struct {
 	Where string `json:"where,omitempty"`
 	Sig   string `json:"sig,omitempty"`
 	Key   string `json:"key,omitempty"`
+	Raw   string `json:"raw,omitempty"` // encrypt/raw-splice: arbitrary bytes placed around the serialised assertion inside the plaintext
 }
 
 // Case is: trust configuration x genuine message(s) x attacker program x entry point.
@@ -662,6 +663,12 @@ func (a *attack) apply(op Op) {
 			if i := strings.Index(s, ">"); i > 0 {
 				plain = []byte(s[:i+1] + hazards[op.J%len(hazards)] + s[i+1:])
 			}
+		case "raw-splice":
+			k := 0
+			if len(op.Raw) > 0 {
+				k = op.J % (len(op.Raw) + 1)
+			}
+			plain = append(append([]byte(op.Raw[:k]), plain...), op.Raw[k:]...)
 		}
 		ea, err := forge.EncryptAssertion(plain, &forge.EncSpec{To: "sp", Seed: uint64(op.J) + 77, Layout: op.Where})
 		if err != nil {
@@ -824,7 +831,14 @@ func genOp(t *rapid.T) Op {
 	case "foreignns":
 		op.Mode = rapid.SampledFrom([]string{"evil-ns", "no-ns", "rebind-prefix", "default-ns"}).Draw(t, "mode")
 	case "encrypt":
-		op.Mode = rapid.SampledFrom([]string{"plain", "plain", "hazard-prefix", "hazard-suffix", "hazard-inside"}).Draw(t, "mode")
+		op.Mode = rapid.SampledFrom([]string{"plain", "plain", "hazard-prefix", "hazard-suffix", "hazard-inside", "raw-splice"}).Draw(t, "mode")
+		if op.Mode == "raw-splice" {
+			if rapid.Bool().Draw(t, "rawdict") {
+				op.Raw = strings.Join(rapid.SliceOfN(rapid.SampledFrom(hazards), 1, 4).Draw(t, "rawtoks"), "")
+			} else {
+				op.Raw = string(rapid.SliceOfN(rapid.Byte(), 0, 24).Draw(t, "rawbytes"))
+			}
+		}
 		op.Where = rapid.SampledFrom([]string{"", "sibling"}).Draw(t, "layout")
 		op.Key = rapid.SampledFrom([]string{"replace", "replace", "keep-plain"}).Draw(t, "keep")
 	}
